@@ -1,4 +1,652 @@
+/-
+  C10 — helper lemmas for `Proofs/C10.lean`.
+
+  * table facts (closed by `decide` against the generated tables),
+  * literal parsing,
+  * idempotence of the unary-minus rewriting and its behaviour on grammar derivations,
+  * shunting-yard correctness in continuation-passing form (`D_run`).
+-/
 import Proofs.Spec.C10
+
 namespace Cstruct.Expr.C10.Lemmas
 open Cstruct Cstruct.Expr Cstruct.Expr.C10
+
+instance (t : String) : Decidable (IsName t) := by unfold IsName; infer_instance
+
+/-! ### Table facts -/
+
+theorem cBinary_facts : ∀ x ∈ cBinary,
+    lookup x.1 Gen.precedenceLevels = some x.2.2 ∧ x.2.2 ≤ 5 ∧
+    lookup x.1 Gen.binaryOperators = some x.2.1 ∧ lookup x.1 Gen.unaryOperators = none ∧
+    isNumber x.1 = false ∧ isUnary x.1 = false ∧ x.1 ≠ "sizeof" ∧ isOperator x.1 = true ∧
+    x.1 ≠ "(" := by decide
+
+structure BinFacts (t : String) (o : Gen.BinKind) (k : Nat) : Prop where
+  prec : lookup t Gen.precedenceLevels = some k
+  le5 : k ≤ 5
+  bin : lookup t Gen.binaryOperators = some o
+  notUn : lookup t Gen.unaryOperators = none
+  notNum : isNumber t = false
+  notUnary : isUnary t = false
+  notSizeof : t ≠ "sizeof"
+  isOp : isOperator t = true
+  notLp : t ≠ "("
+
+theorem binFacts {t o k} (h : (t, o, k) ∈ cBinary) : BinFacts t o k := by
+  obtain ⟨h1, h2, h3, h4, h5, h6, h7, h8, h9⟩ := cBinary_facts (t, o, k) h
+  exact ⟨h1, h2, h3, h4, h5, h6, h7, h8, h9⟩
+
+theorem minusMarker_ne : Gen.minusMarker ≠ "-" := by decide
+
+/-- names of all operators -/
+def opNames : List String :=
+  Gen.binaryOperators.map Prod.fst ++ Gen.unaryOperators.map Prod.fst
+
+theorem lookup_isSome {α} (t : String) (l : List (String × α)) :
+    (lookup t l).isSome = true → t ∈ l.map Prod.fst := by
+  induction l with
+  | nil => simp [lookup]
+  | cons x l ih =>
+    obtain ⟨k', v⟩ := x
+    simp only [lookup, List.map_cons, List.mem_cons]
+    by_cases h : t = k'
+    · intro _; exact Or.inl h
+    · simp only [h, if_false]; intro h'; exact Or.inr (ih h')
+
+theorem mem_opNames {t : String} (h : isOperator t = true) : t ∈ opNames := by
+  simp only [isOperator, isBinary, isUnary, Bool.or_eq_true] at h
+  simp only [opNames, List.mem_append]
+  rcases h with h | h
+  · exact Or.inl (lookup_isSome _ _ h)
+  · exact Or.inr (lookup_isSome _ _ h)
+
+theorem opNames_facts : ∀ x ∈ opNames, isNumber x = false ∧ x ≠ "(" ∧ x ≠ ")" := by decide
+
+theorem unaryCtx_facts : ∀ x ∈ Gen.unaryContextTokens, isNumber x = false := by decide
+
+theorem lp_mem_unaryCtx : "(" ∈ Gen.unaryContextTokens := by decide
+
+/-! ### Environment -/
+
+theorem lookup_none_of_not_name {env : Env} (henv : EnvOk env) {t : String} (h : ¬ IsName t) :
+    lookup t env.ctx = none ∧ lookup t env.consts = none := by
+  constructor
+  · cases hl : lookup t env.ctx with
+    | none => rfl
+    | some v => exact absurd (henv.1 t v hl) h
+  · cases hl : lookup t env.consts with
+    | none => rfl
+    | some v => exact absurd (henv.2 t v hl) h
+
+theorem lookup_mem_keys {α} (t : String) (l : List (String × α)) (v : α) (h : lookup t l = some v) :
+    t ∈ l.map Prod.fst := lookup_isSome t l (by rw [h]; rfl)
+
+/-- a decidable sufficient condition for `EnvOk` -/
+theorem envOk_of_keys {env : Env} (h1 : ∀ t ∈ env.ctx.map Prod.fst, IsName t)
+    (h2 : ∀ t ∈ env.consts.map Prod.fst, IsName t) : EnvOk env :=
+  ⟨fun t v h => h1 t (lookup_mem_keys t _ v h), fun t v h => h2 t (lookup_mem_keys t _ v h)⟩
+
+/-! ### `/` and `%` -/
+
+theorem div_mod_nonneg (a b : Int) (ha : 0 ≤ a) (hb : 0 < b) :
+    binop .floordiv a b = .ok (Int.tdiv a b) ∧ binop .mod a b = .ok (Int.tmod a b) := by
+  have hb0 : b ≠ 0 := by omega
+  have hb' : 0 ≤ b := by omega
+  simp only [binop, hb0, if_false, Int.fdiv_eq_tdiv_of_nonneg ha hb', Int.fmod_eq_tmod_of_nonneg ha hb',
+    and_self]
+
+/-! ### Literals -/
+
+theorem digitVal_digitChar : ∀ d, d < 16 → digitVal (digitChar d) = d := by decide
+
+theorem digitChar_ne_zero : ∀ d, d < 10 → d ≠ 0 → digitChar d ≠ '0' := by decide
+
+theorem foldl_parse (base : Nat) (hb : base ≤ 16) (ds : List Nat) (h : ∀ d ∈ ds, d < base) (a : Nat) :
+    (ds.map digitChar).foldl (fun acc c => match acc with
+      | none => none
+      | some a => if digitVal c < base then some (a * base + digitVal c) else none) (some a)
+    = some (ds.foldl (fun a d => a * base + d) a) := by
+  induction ds generalizing a with
+  | nil => rfl
+  | cons d ds ih =>
+    have hd : d < base := h d (by simp)
+    have hv : digitVal (digitChar d) = d := digitVal_digitChar d (by omega)
+    simp only [List.map_cons, List.foldl_cons, hv, hd, if_true]
+    exact ih (fun x hx => h x (by simp [hx])) _
+
+theorem parseBase_digits (base : Nat) (hb : base ≤ 16) (ds : List Nat) (hne : ds ≠ [])
+    (h : ∀ d ∈ ds, d < base) : parseBase base (ds.map digitChar) = some (ofDigits base ds) := by
+  have : (ds.map digitChar).isEmpty = false := by
+    cases ds with
+    | nil => exact absurd rfl hne
+    | cons _ _ => rfl
+  simp only [parseBase, this, Bool.false_eq_true, if_false, ofDigits]
+  exact foldl_parse base hb ds h 0
+
+theorem parseInt_prefixed (p : Char) (rest : List Char) :
+    parseInt (String.ofList ('0' :: p :: rest)) =
+      if p = 'x' ∨ p = 'X' then (parseBase 16 rest).map Int.ofNat
+      else if p = 'b' ∨ p = 'B' then (parseBase 2 rest).map Int.ofNat
+      else if p = 'o' ∨ p = 'O' then (parseBase 8 rest).map Int.ofNat
+      else if (p :: rest).all (· = '0') then some 0 else none := by
+  simp only [parseInt, String.toList_ofList]
+
+theorem parseInt_decimal (ds : List Nat) (hne : ds ≠ []) (h : ∀ d ∈ ds, d < 10) (h0 : ds.head? ≠ some 0) :
+    parseInt (String.ofList (ds.map digitChar)) = some (Int.ofNat (ofDigits 10 ds)) := by
+  cases ds with
+  | nil => exact absurd rfl hne
+  | cons d ds =>
+    have hd : d < 10 := h d (by simp)
+    have hd0 : d ≠ 0 := by intro e; apply h0; simp [e]
+    have hc := digitChar_ne_zero d hd hd0
+    have hp := parseBase_digits 10 (by omega) (d :: ds) hne h
+    unfold parseInt
+    simp only [String.toList_ofList]
+    split
+    · rename_i heq
+      simp only [List.map_cons, List.cons.injEq] at heq
+      exact absurd heq.1 hc
+    · rw [hp]; rfl
+
+theorem literals (ds : List Nat) (hne : ds ≠ []) :
+    ((∀ d ∈ ds, d < 16) → ∀ p ∈ ['x', 'X'],
+        parseInt (String.ofList ('0' :: p :: ds.map digitChar)) = some (Int.ofNat (ofDigits 16 ds))) ∧
+    ((∀ d ∈ ds, d < 2) → ∀ p ∈ ['b', 'B'],
+        parseInt (String.ofList ('0' :: p :: ds.map digitChar)) = some (Int.ofNat (ofDigits 2 ds))) ∧
+    ((∀ d ∈ ds, d < 8) →
+        parseInt (String.ofList ('0' :: 'o' :: ds.map digitChar)) = some (Int.ofNat (ofDigits 8 ds))) ∧
+    ((∀ d ∈ ds, d < 10) → ds.head? ≠ some 0 →
+        parseInt (String.ofList (ds.map digitChar)) = some (Int.ofNat (ofDigits 10 ds))) := by
+  refine ⟨?_, ?_, ?_, ?_⟩
+  · intro h p hp
+    rw [parseInt_prefixed, parseBase_digits 16 (by omega) ds hne h]
+    simp only [List.mem_cons, List.not_mem_nil, or_false] at hp
+    rcases hp with rfl | rfl <;> simp
+  · intro h p hp
+    rw [parseInt_prefixed, parseBase_digits 2 (by omega) ds hne h]
+    simp only [List.mem_cons, List.not_mem_nil, or_false] at hp
+    rcases hp with rfl | rfl <;> simp
+  · intro h
+    rw [parseInt_prefixed, parseBase_digits 8 (by omega) ds hne h]
+    simp
+  · exact parseInt_decimal ds hne
+
+/-! ### Unary-minus rewriting -/
+
+/-- after token `p`, a `-` is unary -/
+def ucB (p : String) : Bool := isOperator p || Gen.unaryContextTokens.contains p
+
+/-- what the rewriting loop writes over token `t` when the previous (rewritten) token is `prev` -/
+def markTok (prev : Option String) (t : String) : String :=
+  if t = "-" then
+    match prev with
+    | none => Gen.minusMarker
+    | some p => if ucB p then Gen.minusMarker else t
+  else t
+
+theorem rewriteFrom_cons (prev : Option String) (t : String) (r : List String) :
+    rewriteFrom prev (t :: r) = markTok prev t :: rewriteFrom (some (markTok prev t)) r := rfl
+
+theorem markTok_ne {p t} (h : t ≠ "-") : markTok p t = t := by unfold markTok; rw [if_neg h]
+
+theorem markTok_none : markTok none "-" = Gen.minusMarker := by unfold markTok; rw [if_pos rfl]
+
+theorem markTok_some_true {p} (h : ucB p = true) : markTok (some p) "-" = Gen.minusMarker := by
+  unfold markTok; rw [if_pos rfl]; simp only [h, if_true]
+
+theorem markTok_some_false {p} (h : ucB p = false) : markTok (some p) "-" = "-" := by
+  unfold markTok; rw [if_pos rfl]; simp only [h, Bool.false_eq_true, if_false]
+
+theorem markTok_idem (prev : Option String) (t : String) : markTok prev (markTok prev t) = markTok prev t := by
+  by_cases ht : t = "-"
+  · subst ht
+    cases prev with
+    | none => rw [markTok_none, markTok_ne minusMarker_ne]
+    | some p =>
+      cases hc : ucB p with
+      | true => rw [markTok_some_true hc, markTok_ne minusMarker_ne]
+      | false => rw [markTok_some_false hc, markTok_some_false hc]
+  · rw [markTok_ne ht, markTok_ne ht]
+
+/-- the rewriting is idempotent, for every token list and every left context -/
+theorem rewriteFrom_idem (l : List String) : ∀ prev, rewriteFrom prev (rewriteFrom prev l) = rewriteFrom prev l := by
+  induction l with
+  | nil => intro _; rfl
+  | cons t r ih =>
+    intro prev
+    rw [rewriteFrom_cons, rewriteFrom_cons, markTok_idem, ih]
+
+theorem rewriteMinus_idem (l : List String) : rewriteMinus (rewriteMinus l) = rewriteMinus l :=
+  rewriteFrom_idem l none
+
+theorem repeat_ (o : Obj) (env1 env2 : Env) :
+    ((o.evaluate env1).1.evaluate env2).2 = (o.evaluate env2).2 ∧
+    ((o.evaluate env1).1.evaluate env2).1 = (o.evaluate env1).1 := by
+  simp only [Obj.evaluate, rewriteMinus_idem, and_self]
+
+/-- last token of `l`, or `p` if there is none -/
+def lastTok : Option String → List String → Option String
+  | p, [] => p
+  | _, t :: r => lastTok (some t) r
+
+theorem lastTok_append (a b : List String) : ∀ p, lastTok p (a ++ b) = lastTok (lastTok p a) b := by
+  induction a with
+  | nil => intro _; rfl
+  | cons t a ih => intro p; exact ih (some t)
+
+theorem rewriteFrom_append (a b : List String) : ∀ p,
+    rewriteFrom p (a ++ b) = rewriteFrom p a ++ rewriteFrom (lastTok p (rewriteFrom p a)) b := by
+  induction a with
+  | nil => intro _; rfl
+  | cons t a ih =>
+    intro p
+    rw [List.cons_append, rewriteFrom_cons, rewriteFrom_cons, ih, List.cons_append]
+    rfl
+
+/-- after `prev`, a `-` is unary -/
+def UCtx : Option String → Prop
+  | none => True
+  | some p => ucB p = true
+
+/-- a token that can end an expression: after it a `-` is binary (and it is not `(`) -/
+def EndTok (t : String) : Prop := isOperator t = false ∧ t ∉ Gen.unaryContextTokens
+
+theorem markTok_uctx {p} (h : UCtx p) : markTok p "-" = Gen.minusMarker := by
+  cases p with
+  | none => exact markTok_none
+  | some p => exact markTok_some_true h
+
+theorem markTok_end {l} (h : EndTok l) : markTok (some l) "-" = "-" := by
+  apply markTok_some_false
+  have h2 : Gen.unaryContextTokens.contains l = false := by
+    cases hc : Gen.unaryContextTokens.contains l with
+    | false => rfl
+    | true => exact absurd (List.contains_iff_mem.mp hc) h.2
+  rw [ucB, h.1, h2]; rfl
+
+theorem uctx_of_op {t} (h : isOperator t = true) : UCtx (some t) := by
+  show ucB t = true
+  rw [ucB, h]; rfl
+
+theorem minus_isOp : isOperator "-" = true := by decide
+
+theorem name_ne_minus {t} (h : IsName t) : t ≠ "-" := by
+  intro e; subst e; have := h.2.1; rw [minus_isOp] at this; cases this
+
+theorem endTok_name {t} (h : IsName t) : EndTok t := ⟨h.2.1, h.2.2.2.2⟩
+
+theorem not_op_of_number {t} (h : isNumber t = true) : isOperator t = false := by
+  cases ho : isOperator t with
+  | false => rfl
+  | true => have := (opNames_facts t (mem_opNames ho)).1; rw [h] at this; cases this
+
+theorem endTok_number {t} (h : isNumber t = true) : EndTok t := by
+  refine ⟨not_op_of_number h, ?_⟩
+  intro hm; have := unaryCtx_facts t hm; rw [h] at this; cases this
+
+theorem endTok_atom {env t v} (h : Atom env t v) : EndTok t := by
+  cases h with
+  | lit hn _ => exact endTok_number hn
+  | ctx hn _ => exact endTok_name hn
+  | const hn _ _ => exact endTok_name hn
+
+theorem atom_ne_minus {env t v} (h : Atom env t v) : t ≠ "-" := by
+  intro e; subst e; have := (endTok_atom h).1; rw [minus_isOp] at this; cases this
+
+theorem endTok_rp : EndTok ")" := by unfold EndTok; decide
+
+theorem endTok_ne_lp {t} (h : EndTok t) : t ≠ "(" := by
+  intro e; subst e; exact h.2 lp_mem_unaryCtx
+
+theorem D_rewrite {env k raw marked v} (hD : D env k raw marked v) :
+    ∀ prev, UCtx prev → rewriteFrom prev raw = marked ∧
+      ∃ l, (∀ p, lastTok p marked = some l) ∧ EndTok l := by
+  induction hD with
+  | @atom t v ha =>
+    intro prev _
+    refine ⟨?_, t, fun _ => rfl, endTok_atom ha⟩
+    rw [rewriteFrom_cons, markTok_ne (atom_ne_minus ha)]; rfl
+  | @sizeof name v hn _ _ =>
+    intro prev _
+    refine ⟨?_, ")", fun _ => rfl, endTok_rp⟩
+    rw [rewriteFrom_cons, markTok_ne (by decide), rewriteFrom_cons, markTok_ne (by decide),
+      rewriteFrom_cons, markTok_ne (name_ne_minus hn), rewriteFrom_cons, markTok_ne (by decide)]; rfl
+  | @paren raw marked v _ ih =>
+    intro prev _
+    obtain ⟨hrw, l, hl, _⟩ := ih (some "(") (by unfold UCtx; decide)
+    refine ⟨?_, ")", ?_, endTok_rp⟩
+    · rw [List.cons_append, rewriteFrom_cons, markTok_ne (by decide), rewriteFrom_append, hrw, rewriteFrom_cons,
+        markTok_ne (by decide)]; rfl
+    · intro p
+      show lastTok (some "(") (marked ++ [")"]) = _
+      rw [lastTok_append]; rfl
+  | @neg raw marked v _ ih =>
+    intro prev hp
+    obtain ⟨hrw, l, hl, hend⟩ := ih (some Gen.minusMarker) (by unfold UCtx; decide)
+    refine ⟨?_, l, fun p => hl _, hend⟩
+    rw [rewriteFrom_cons, markTok_uctx hp, hrw]
+  | @inv raw marked v _ ih =>
+    intro prev hp
+    obtain ⟨hrw, l, hl, hend⟩ := ih (some "~") (by unfold UCtx; decide)
+    refine ⟨?_, l, fun p => hl _, hend⟩
+    rw [rewriteFrom_cons, markTok_ne (by decide), hrw]
+  | up _ _ ih => exact ih
+  | @bin k t o r1 m1 r2 m2 a b v hmem _ _ _ ih1 ih2 =>
+    intro prev hp
+    have hf := binFacts hmem
+    obtain ⟨hrw1, l1, hl1, hend1⟩ := ih1 prev hp
+    obtain ⟨hrw2, l2, hl2, hend2⟩ := ih2 (some t) (uctx_of_op hf.isOp)
+    have hmark : markTok (some l1) t = t := by
+      by_cases ht : t = "-"
+      · subst ht; exact markTok_end hend1
+      · exact markTok_ne ht
+    refine ⟨?_, l2, ?_, hend2⟩
+    · rw [rewriteFrom_append, hrw1, hl1, rewriteFrom_cons, hmark, hrw2]
+    · intro p
+      rw [lastTok_append]
+      exact hl2 _
+
+
+/-! ### Shunting yard: stack lemmas (`drain` doubles as the "collapse" function of the spike) -/
+
+theorem drain_cons_ok {it : String} {st : List String} {q q' : List Int} (h : drain (it :: st) q = .ok q') :
+    it ≠ "(" ∧ ∃ q1, applyOp it q = .ok q1 ∧ drain st q1 = .ok q' := by
+  unfold drain at h
+  by_cases hlp : it = "("
+  · rw [if_pos hlp] at h; cases h
+  · rw [if_neg hlp] at h
+    refine ⟨hlp, ?_⟩
+    cases ha : applyOp it q with
+    | error e => rw [ha] at h; cases h
+    | ok q1 => rw [ha] at h; exact ⟨q1, rfl, h⟩
+
+theorem drain_cons_of {it : String} {st : List String} {q q1 : List Int} (hlp : it ≠ "(")
+    (ha : applyOp it q = .ok q1) : drain (it :: st) q = drain st q1 := by
+  rw [drain, if_neg hlp, ha]
+
+theorem drain_append (a b : List String) : ∀ (q q' : List Int), drain a q = .ok q' →
+    drain (a ++ b) q = drain b q' := by
+  induction a with
+  | nil => intro q q' h; unfold drain at h; cases h; rfl
+  | cons it a ih =>
+    intro q q' h
+    obtain ⟨hlp, q1, ha, hd⟩ := drain_cons_ok h
+    rw [List.cons_append, drain_cons_of hlp ha]
+    exact ih _ _ hd
+
+/-- every stacked operator binds at least as tightly as level `k` -/
+def PrecGe (k : Nat) (pend : List String) : Prop :=
+  ∀ it ∈ pend, ∃ p, lookup it Gen.precedenceLevels = some p ∧ k ≤ p
+
+theorem flush_append (cur : String) (k : Nat) (hcur : lookup cur Gen.precedenceLevels = some k)
+    (pend st : List String) : ∀ (qa q' : List Int), PrecGe k pend → drain pend qa = .ok q' →
+    flush cur (pend ++ st) qa = flush cur st q' := by
+  induction pend with
+  | nil => intro qa q' _ h; unfold drain at h; cases h; rfl
+  | cons it pend ih =>
+    intro qa q' hp h
+    obtain ⟨hlp, q1, ha, hd⟩ := drain_cons_ok h
+    obtain ⟨p, hp1, hp2⟩ := hp it (by simp)
+    have hge : precGe it cur = .ok true := by
+      unfold precGe; rw [hp1, hcur]; simp only [ge_iff_le, hp2, decide_true]
+    rw [List.cons_append, flush, if_neg hlp, hge]
+    simp only [ha]
+    exact ih _ _ (fun x hx => hp x (by simp [hx])) hd
+
+theorem closeParen_append (pend st : List String) : ∀ (qa q' : List Int), drain pend qa = .ok q' →
+    closeParen (pend ++ st) qa = closeParen st q' := by
+  induction pend with
+  | nil => intro qa q' h; unfold drain at h; cases h; rfl
+  | cons it pend ih =>
+    intro qa q' h
+    obtain ⟨hlp, q1, ha, hd⟩ := drain_cons_ok h
+    rw [List.cons_append, closeParen, if_neg hlp, ha]
+    exact ih _ _ hd
+
+/-- context condition: the operator just below a level-`k` expression binds weaker than `k` -/
+def ctxOk (k : Nat) : List String → Prop
+  | [] => True
+  | it :: _ => k ≤ 5 → (it = "(" ∨ ∃ p, lookup it Gen.precedenceLevels = some p ∧ p < k)
+
+theorem flush_stop (cur : String) (k : Nat) (hcur : lookup cur Gen.precedenceLevels = some k) (hk : k ≤ 5)
+    (st : List String) (q : List Int) (h : ctxOk k st) : flush cur st q = .ok (st, q) := by
+  cases st with
+  | nil => rfl
+  | cons it st =>
+    unfold flush
+    by_cases hlp : it = "("
+    · rw [if_pos hlp]
+    · rw [if_neg hlp]
+      rcases h hk with h | ⟨p, hp1, hp2⟩
+      · exact absurd h hlp
+      · have hge : precGe it cur = .ok false := by
+          unfold precGe; rw [hp1, hcur]
+          have : ¬ (p ≥ k) := by omega
+          simp only [this, decide_false]
+        rw [hge]
+
+theorem ctxOk_succ {k st} (h : ctxOk k st) : ctxOk (k + 1) st := by
+  cases st with
+  | nil => trivial
+  | cons it st =>
+    intro hk5
+    rcases h (by omega) with h | ⟨p, h1, h2⟩
+    · exact Or.inl h
+    · exact Or.inr ⟨p, h1, by omega⟩
+
+/-! ### One step of `run` per token class -/
+
+theorem run_cons (env : Env) (t : String) (rest : List String) (s : St) :
+    run env (t :: rest) s =
+    if isNumber t then
+      match parseInt t with
+      | some n => run env rest { prev := some t, st := s.st, q := n :: s.q }
+      | none => .error .value
+    else match lookup t env.ctx with
+    | some v => run env rest { prev := some t, st := s.st, q := v :: s.q }
+    | none =>
+    match lookup t env.consts with
+    | some v => run env rest { prev := some t, st := s.st, q := v :: s.q }
+    | none =>
+    if isUnary t then run env rest { prev := some t, st := t :: s.st, q := s.q }
+    else if t = "sizeof" then
+      match rest with
+      | a :: b :: c :: rest' =>
+        if a ≠ "(" ∨ c ≠ ")" then .error .parser else
+        match env.sizeof b with
+        | .ok n => run env rest' { prev := some c, st := s.st, q := n :: s.q }
+        | .error e => .error e
+      | [a, _] => if a ≠ "(" then .error .parser else .error .index
+      | _ => .error .parser
+    else if isOperator t then
+      match flush t s.st s.q with
+      | .ok (st', q') => run env rest { prev := some t, st := t :: st', q := q' }
+      | .error e => .error e
+    else if t = "(" then
+      match s.prev with
+      | some p => if isNumber p then .error .parser
+                  else run env rest { prev := some t, st := t :: s.st, q := s.q }
+      | none => run env rest { prev := some t, st := t :: s.st, q := s.q }
+    else if t = ")" then
+      if s.prev = some "(" then .error .parser
+      else if s.st.isEmpty then .error .parser
+      else match closeParen s.st s.q with
+        | .ok (st', q') => run env rest { prev := some t, st := st', q := q' }
+        | .error e => .error e
+    else .error .parser := by
+  rw [run.eq_def]; rfl
+
+
+theorem run_atom {env : Env} {t : String} {v : Int} (h : Atom env t v) (rest : List String) (s : St) :
+    run env (t :: rest) s = run env rest ⟨some t, s.st, v :: s.q⟩ := by
+  cases h with
+  | lit hn hp => rw [run_cons, if_pos hn, hp]
+  | ctx hname hl => rw [run_cons, if_neg (by rw [hname.1]; simp), hl]
+  | const hname hl hc => rw [run_cons, if_neg (by rw [hname.1]; simp), hl]; simp only [hc]
+
+theorem sizeof_facts : isNumber "sizeof" = false ∧ isUnary "sizeof" = false := by decide
+
+theorem run_sizeof {env : Env} {name : String} {v : Int} (hns : NotShadowed env "sizeof")
+    (hs : env.sizeof name = .ok v) (rest : List String) (s : St) :
+    run env ("sizeof" :: "(" :: name :: ")" :: rest) s = run env rest ⟨some ")", s.st, v :: s.q⟩ := by
+  rw [run_cons, if_neg (by rw [sizeof_facts.1]; simp), hns.1]
+  simp only [hns.2, sizeof_facts.2, Bool.false_eq_true, if_false, if_true, ne_eq, not_true_eq_false,
+    or_self, hs]
+
+theorem not_name_of_op {t} (h : isOperator t = true) : ¬ IsName t := by
+  intro hn; have := hn.2.1; rw [h] at this; cases this
+
+theorem unary_facts : ∀ x ∈ Gen.unaryOperators,
+    isNumber x.1 = false ∧ isUnary x.1 = true ∧ isOperator x.1 = true ∧ x.1 ≠ "(" ∧
+    lookup x.1 Gen.unaryOperators = some x.2 ∧ lookup x.1 Gen.precedenceLevels = some 6 := by decide
+
+theorem run_unary {env : Env} (henv : EnvOk env) {t : String} {u : Gen.UnKind}
+    (hm : (t, u) ∈ Gen.unaryOperators) (rest : List String) (s : St) :
+    run env (t :: rest) s = run env rest ⟨some t, t :: s.st, s.q⟩ := by
+  obtain ⟨h1, h2, h3, _, _, _⟩ := unary_facts (t, u) hm
+  obtain ⟨hc, hk⟩ := lookup_none_of_not_name henv (not_name_of_op h3)
+  rw [run_cons, if_neg (by rw [h1]; simp), hc]
+  simp only [hk, h2, if_true]
+
+theorem run_binary {env : Env} (henv : EnvOk env) {t : String} {o : Gen.BinKind} {k : Nat}
+    (hf : BinFacts t o k) (rest : List String) (s : St) {st' : List String} {q' : List Int}
+    (hfl : flush t s.st s.q = .ok (st', q')) :
+    run env (t :: rest) s = run env rest ⟨some t, t :: st', q'⟩ := by
+  obtain ⟨hc, hk⟩ := lookup_none_of_not_name henv (not_name_of_op hf.isOp)
+  rw [run_cons, if_neg (by rw [hf.notNum]; simp), hc]
+  simp only [hk, hf.notUnary, Bool.false_eq_true, if_false, hf.notSizeof, hf.isOp, if_true, hfl]
+
+theorem lp_facts : isNumber "(" = false ∧ isUnary "(" = false ∧ isOperator "(" = false ∧ "(" ≠ "sizeof" ∧
+    ¬ IsName "(" := by decide
+
+theorem rp_facts : isNumber ")" = false ∧ isUnary ")" = false ∧ isOperator ")" = false ∧ ")" ≠ "sizeof" ∧
+    ")" ≠ "(" ∧ ¬ IsName ")" := by decide
+
+/-- `(` is accepted unless it directly follows a literal -/
+def PrevOk : Option String → Prop
+  | none => True
+  | some p => isNumber p = false
+
+theorem run_lparen {env : Env} (henv : EnvOk env) (rest : List String) (prev : Option String)
+    (st : List String) (q : List Int) (hprev : PrevOk prev) :
+    run env ("(" :: rest) ⟨prev, st, q⟩ = run env rest ⟨some "(", "(" :: st, q⟩ := by
+  obtain ⟨hc, hk⟩ := lookup_none_of_not_name henv lp_facts.2.2.2.2
+  rw [run_cons, if_neg (by rw [lp_facts.1]; simp), hc]
+  simp only [hk, lp_facts.2.1, lp_facts.2.2.1, lp_facts.2.2.2.1, Bool.false_eq_true, if_false, if_true]
+  cases prev with
+  | none => rfl
+  | some p => simp only [PrevOk] at hprev; simp only [hprev, Bool.false_eq_true, if_false]
+
+theorem run_rparen {env : Env} (henv : EnvOk env) (rest : List String) (last : String)
+    (st : List String) (q : List Int) (hlast : last ≠ "(") (hst : st ≠ []) {st' : List String} {q' : List Int}
+    (hcp : closeParen st q = .ok (st', q')) :
+    run env (")" :: rest) ⟨some last, st, q⟩ = run env rest ⟨some ")", st', q'⟩ := by
+  obtain ⟨hc, hk⟩ := lookup_none_of_not_name henv rp_facts.2.2.2.2.2
+  have hemp : st.isEmpty = false := by
+    cases st with
+    | nil => exact absurd rfl hst
+    | cons _ _ => rfl
+  have hpl : ¬ (some last = some "(") := by intro e; cases e; exact hlast rfl
+  rw [run_cons, if_neg (by rw [rp_facts.1]; simp), hc]
+  simp only [hk, rp_facts.2.1, rp_facts.2.2.1, rp_facts.2.2.2.1, rp_facts.2.2.2.2.1, Bool.false_eq_true,
+    if_false, if_true, hpl, hemp, hcp]
+
+
+/-! ### Shunting yard: correctness on grammar derivations -/
+
+theorem applyOp_unary {t : String} {u : Gen.UnKind} (h : lookup t Gen.unaryOperators = some u)
+    (r : Int) (q : List Int) : applyOp t (r :: q) = .ok (unop u r :: q) := by
+  unfold applyOp; simp only [h]
+
+theorem applyOp_binary {t : String} {o : Gen.BinKind} {k : Nat} (hf : BinFacts t o k) {l r v : Int}
+    (hv : binop o l r = .ok v) (q : List Int) : applyOp t (r :: l :: q) = .ok (v :: q) := by
+  unfold applyOp; simp only [hf.notUn, hf.bin, hv]; rfl
+
+theorem precGe_nil (k : Nat) : PrecGe k [] := fun _ h => by cases h
+
+theorem precGe_append_singleton {k : Nat} {pend : List String} {t : String} {k' p : Nat}
+    (hp : PrecGe k' pend) (hk : k ≤ k') (ht : lookup t Gen.precedenceLevels = some p) (hkp : k ≤ p) :
+    PrecGe k (pend ++ [t]) := by
+  intro it hit
+  simp only [List.mem_append, List.mem_singleton] at hit
+  rcases hit with h | rfl
+  · obtain ⟨p', h1, h2⟩ := hp it h; exact ⟨p', h1, by omega⟩
+  · exact ⟨p, ht, hkp⟩
+
+theorem run_unary_D {env : Env} (henv : EnvOk env) {t : String} {u : Gen.UnKind}
+    (hm : (t, u) ∈ Gen.unaryOperators) {marked : List String} {v : Int}
+    (ih : ∀ prev st q rest, PrevOk prev → ctxOk 6 st →
+      ∃ last pend qa, run env (marked ++ rest) ⟨prev, st, q⟩ = run env rest ⟨some last, pend ++ st, qa⟩ ∧
+        EndTok last ∧ PrecGe 6 pend ∧ drain pend qa = .ok (v :: q)) :
+    ∀ prev st q rest, PrevOk prev → ctxOk 6 st →
+      ∃ last pend qa, run env ((t :: marked) ++ rest) ⟨prev, st, q⟩ = run env rest ⟨some last, pend ++ st, qa⟩ ∧
+        EndTok last ∧ PrecGe 6 pend ∧ drain pend qa = .ok (unop u v :: q) := by
+  intro prev st q rest _ _
+  obtain ⟨h1, _, _, hlp, hlu, hprec⟩ := unary_facts (t, u) hm
+  obtain ⟨last, pend, qa, hrun, hend, hpg, hdr⟩ :=
+    ih (some t) (t :: st) q rest h1 (fun h => absurd h (by omega))
+  refine ⟨last, pend ++ [t], qa, ?_, hend, precGe_append_singleton hpg (Nat.le_refl _) hprec (Nat.le_refl _), ?_⟩
+  · rw [List.cons_append, run_unary henv hm, hrun, List.append_assoc]; rfl
+  · rw [drain_append pend [t] qa _ hdr, drain_cons_of hlp (applyOp_unary hlu v q)]; rfl
+
+theorem D_run {env : Env} (henv : EnvOk env) {k : Nat} {raw marked : List String} {v : Int}
+    (hD : D env k raw marked v) :
+    ∀ prev st q rest, PrevOk prev → ctxOk k st →
+      ∃ last pend qa, run env (marked ++ rest) ⟨prev, st, q⟩ = run env rest ⟨some last, pend ++ st, qa⟩ ∧
+        EndTok last ∧ PrecGe k pend ∧ drain pend qa = .ok (v :: q) := by
+  induction hD with
+  | @atom t v ha =>
+    intro prev st q rest _ _
+    exact ⟨t, [], v :: q, by rw [List.cons_append, List.nil_append, run_atom ha]; rfl, endTok_atom ha,
+      precGe_nil _, rfl⟩
+  | @sizeof name v _ hns hs =>
+    intro prev st q rest _ _
+    exact ⟨")", [], v :: q, by
+      simp only [List.cons_append, List.nil_append]; rw [run_sizeof hns hs], endTok_rp,
+      precGe_nil _, rfl⟩
+  | @paren raw marked v _ ih =>
+    intro prev st q rest hprev _
+    obtain ⟨last, pend, qa, hrun, hend, _, hdr⟩ :=
+      ih (some "(") ("(" :: st) q (")" :: rest) lp_facts.1 (fun _ => Or.inl rfl)
+    refine ⟨")", [], v :: q, ?_, endTok_rp, precGe_nil _, rfl⟩
+    have hcp : closeParen (pend ++ "(" :: st) qa = .ok (st, v :: q) := by
+      rw [closeParen_append pend _ qa _ hdr, closeParen, if_pos rfl]
+    have hne : pend ++ "(" :: st ≠ [] := by simp
+    rw [List.cons_append, List.cons_append, List.append_assoc, run_lparen henv _ _ _ _ hprev]
+    show run env (marked ++ ")" :: rest) _ = _
+    rw [hrun, run_rparen henv rest last _ qa (endTok_ne_lp hend) hne hcp]; rfl
+  | @neg raw marked v _ ih =>
+    exact run_unary_D henv (u := .neg) (by decide) ih
+  | @inv raw marked v _ ih =>
+    exact run_unary_D henv (u := .inv) (by decide) ih
+  | @up k raw marked v hk _ ih =>
+    intro prev st q rest hprev hctx
+    obtain ⟨last, pend, qa, hrun, hend, hpg, hdr⟩ := ih prev st q rest hprev (ctxOk_succ hctx)
+    exact ⟨last, pend, qa, hrun, hend,
+      fun it hit => by obtain ⟨p, h1, h2⟩ := hpg it hit; exact ⟨p, h1, by omega⟩, hdr⟩
+  | @bin k t o r1 m1 r2 m2 a b v hmem _ _ hv ih1 ih2 =>
+    intro prev st q rest hprev hctx
+    have hf := binFacts hmem
+    obtain ⟨l1, pend1, qa1, hrun1, _, hpg1, hdr1⟩ := ih1 prev st q (t :: (m2 ++ rest)) hprev hctx
+    have hctx2 : ctxOk (k + 1) (t :: st) := fun _ => Or.inr ⟨k, hf.prec, Nat.lt_succ_self k⟩
+    obtain ⟨l2, pend2, qa2, hrun2, hend2, hpg2, hdr2⟩ :=
+      ih2 (some t) (t :: st) (a :: q) rest hf.notNum hctx2
+    have hfl : flush t (pend1 ++ st) qa1 = .ok (st, a :: q) := by
+      rw [flush_append t k hf.prec pend1 st qa1 _ hpg1 hdr1, flush_stop t k hf.prec hf.le5 st _ hctx]
+    refine ⟨l2, pend2 ++ [t], qa2, ?_, hend2,
+      precGe_append_singleton hpg2 (Nat.le_succ k) hf.prec (Nat.le_refl _), ?_⟩
+    · rw [List.append_assoc, List.cons_append, hrun1,
+        run_binary henv hf (m2 ++ rest) ⟨some l1, pend1 ++ st, qa1⟩ hfl, hrun2, List.append_assoc]; rfl
+    · rw [drain_append pend2 [t] qa2 _ hdr2, drain_cons_of hf.notLp (applyOp_binary hf hv q)]; rfl
+
+theorem eval_correct (env : Env) (henv : EnvOk env) {raw marked : List String} {v : Int}
+    (h : D env 0 raw marked v) :
+    (Obj.evaluate ⟨raw⟩ env).2 = .ok v ∧ (Obj.evaluate ⟨raw⟩ env).1.tokens = marked := by
+  have hrw : rewriteMinus raw = marked := (D_rewrite h none trivial).1
+  obtain ⟨last, pend, qa, hrun, _, _, hdr⟩ := D_run henv h none [] [] [] trivial trivial
+  rw [List.append_nil, List.append_nil] at hrun
+  have hrun' : run env marked ⟨none, [], []⟩ = .ok ⟨some last, pend, qa⟩ := hrun
+  simp only [Obj.evaluate, hrw, evalMarked, hrun', hdr, and_self]
+
+
 end Cstruct.Expr.C10.Lemmas
